@@ -233,3 +233,13 @@ Definition src_table : list (string * N) :=
 Definition src_const (name : string) : option N :=
   option_map snd (find (fun p => String.eqb (fst p) name) src_table).
 Definition src_get (name : string) : N := match src_const name with Some v => v | None => 0 end.
+
+(* spec column, independent of the model's normalisation: option 6 of every OFFER/ACK to a non-captured
+   client is the configured DNS server of the RAW configuration, the router when none is configured *)
+Definition c12_dns_fails (r : rawcfg) (c : cfg) (t : tstep) : list string :=
+  match op_msg (t_op t), t_reply t with
+  | Some m, Some rp =>
+      if is_lease_reply rp && negb (client_net c (t_pre t) m) && negb (obeqb (opt 6 rp) (ipb (spec_dns r)))
+      then ["dns-default"] else []
+  | _, _ => []
+  end.
